@@ -1397,6 +1397,10 @@ def target_worker_thread(host: str, port: int, shared_aconf: AuditConf) -> Tuple
     except Exception:
         ret = -1
         string_output = "An exception occurred while scanning %s:%d:\n%s" % (host, port, str(traceback.format_exc()))
+    except SystemExit as e:
+        # Some low-level error paths (i.e.: an invalid packet received from this target) terminate through sys.exit().  That must only end this target's scan, not the scans of all the other targets.
+        ret = e.code if isinstance(e.code, int) else exitcodes.UNKNOWN_ERROR
+        string_output = out.get_buffer()
     finally:
         # This deletes the thread's local copy of the algorithm databases.
         SSH1_KexDB.thread_exit()
